@@ -266,6 +266,8 @@ def h_tee(n: int, m: int, o0: int, o1: int, o2: int, o3: int, o4: int, o5: int, 
     C = P("C", 2)
     ops = [o0, o1, o2, o3, o4, o5, o6, o7]
     items = [Item(0, "0.%d" % j) for j in range(n)]
+    if P("none_item") is not None and P("none_item") < n:
+        items[P("none_item")] = None  # None is an item like any other
     Wa, Ws = World("a"), World("s")
     D = Driver(Wa, sync_only=True)
     ok = True
@@ -456,6 +458,8 @@ def jobs(tier):
     add("h_accumulate_add", T, N=5, fl="list")
     add("h_tee", T, C=2, N=3, M=(6 if q else 8))
     add("h_tee", T, C=3, N=(2 if q else 3), M=(5 if q else 6))
+    add("h_tee", T, C=2, N=3, M=6, none_item=1)
+    add("h_tee", T, C=2, N=3, M=6, none_item=0, fl="acls")
     return J
 
 
